@@ -11,7 +11,7 @@ CLAIMED = {
         design="DESIGN.md section 3 C01, 2.2"),
     "C02": dict(
         technique="runtime monitoring: online check after every delivery against an external unit-level causal model (hook H1/H2)",
-        text="Exploration with an exact oracle: the harness keeps, outside yrs, the dependency graph of every unit handed to a replica and requires lower(M) <= integrated <= upper(M) and has_missing_updates() == (a handed block lacks a dependency) after every single delivery of hostile schedules (same-sender reordering, withholding, relays through gapped replicas), plus equal vectors / nothing pending after full delivery.",
+        text="Exploration with an exact oracle: the harness keeps, outside yrs, the dependency graph of every unit handed to a replica and requires lower(M) <= integrated <= upper(M) and has_missing_updates() == (a handed block lacks a dependency) after every single delivery of hostile schedules (same-sender reordering, withholding, relays through gapped replicas), plus equal vectors / nothing pending after full delivery; a full-state export of a replica must carry every unit and every deletion it was handed, integrated/applied or still stashed.",
         design="DESIGN.md section 3 C02, 2.3"),
     "C04": dict(
         technique="runtime monitoring: uniquely tagged elements, global pair-order table over all intermediate states, visibility vs causal model",
@@ -26,7 +26,7 @@ CLAIMED = {
 CLAIMED.update({
     "C05": dict(
         technique="runtime monitoring: per-register causal-LWW necessary conditions against happened-before recorded from unit ids (hooks H1/H2)",
-        text="Exploration with a necessary-condition oracle: every map/attribute write is recorded with its unit id and the set of writes its author had integrated; after every step, for every (container, key) on every replica: the shown value is a received write that no integrated write had seen and whose removal was not received; an absent key implies a removed maximal write; a write that follows all other received writes and was not removed must be shown; removed/overwritten nested types are unreachable; plus final convergence. Does not re-implement the tie-break among concurrent writes (any of them may win).",
+        text="Exploration with a necessary-condition oracle: every map/attribute write is recorded with its unit id and the set of writes its author had integrated; after every step, for every (container, key) on every replica: the shown value is a received write that no integrated write had seen and whose removal was not received; an absent key implies a removed maximal write; a write that follows all other received writes and was not removed must be shown; removed/overwritten nested types are unreachable; a write (also one that repeats the value the key already shows) makes a new entry at the head of the key's chain; plus final convergence. Does not re-implement the tie-break among concurrent writes (any of them may win).",
         design="DESIGN.md section 3 C05"),
     "C06": dict(
         technique="runtime monitoring: sync exchanges inside hostile histories checked against integrated-unit sets (hook H2), delete sets and vectors",
@@ -49,8 +49,8 @@ CLAIMED.update({
         text="Exploration: indexes of both associations at start / inside / block-boundary / end positions of text, array and XML sequences; binary and JSON round trip; on every replica that has integrated the anchor the resolved offset must equal the count of visible units (in that replica's offset unit) before the anchor, or before its tombstone if deleted; start/end indexes of empty collections stay. OffsetKind::Bytes over non-ASCII text is a known finding (D9) - that population is counted, not enforced.",
         design="DESIGN.md section 3 C14"),
     "C15": dict(
-        technique="runtime monitoring: gc/no-gc twin replicas compared after every step, forced gc, rebuild from full state, lock-step oracle on sequential histories (every receiver equals the author right after its update, whatever its gc / clean-up setting); ASan re-run",
-        text="Exploration: deletion-heavy histories (plain content, nested subtrees, map overwrites, formatting); each replica is shadowed by a passive twin with the opposite gc setting and the dumps must agree after every step; forced gc (all / scoped) must not change the dump; a document rebuilt from a replica's full state must equal it; replicas with different gc settings converge.",
+        technique="runtime monitoring: gc/no-gc twin replicas compared after every step, forced gc, rebuild from full state, lock-step oracle on sequential histories (every receiver equals the author right after its update, whatever its gc / clean-up setting); invariant monitor 'content the undo stacks name is not collected' on undo-manager programs with forced gc; ASan re-run",
+        text="Exploration: deletion-heavy histories (plain content, nested subtrees, map overwrites, formatting); each replica is shadowed by a passive twin with the opposite gc setting and the dumps must agree after every step; forced gc (all / scoped) must not change the dump; a document rebuilt from a replica's full state must equal it; replicas with different gc settings converge. A second job runs undo-manager programs on gc-enabled documents with frequent forced collections: every unit of a scoped type named by the deletions of an undo/redo stack entry must still hold its content after every step (hook H2), and forced gc changes nothing visible.",
         design="DESIGN.md section 3 C15"),
 })
 
